@@ -240,7 +240,12 @@ pub async fn exec_signals(a: &Args) -> Args {
             let stopped = tokio::time::timeout(T_CALL, s.stopped()).await.map(|e| enc_w(&e)).unwrap_or(vec![8]);
             let write = match tokio::time::timeout(T_CALL, s.write_all(b"more")).await { Ok(Ok(())) => vec![0], Ok(Err(e)) => enc_w(&e), Err(_) => vec![8] };
             let fin = match tokio::time::timeout(T_CALL, s.finish()).await { Ok(Ok(())) => vec![0], Ok(Err(e)) => enc_w(&e), Err(_) => vec![8] };
-            vec![vec![1], stopped, write, fin]
+            // and again, a round trip later: the answers do not change
+            tokio::time::sleep(Duration::from_millis(120)).await;
+            let write2 = match tokio::time::timeout(T_CALL, s.write(b"again")).await { Ok(Ok(_)) => vec![0], Ok(Err(e)) => enc_w(&e), Err(_) => vec![8] };
+            let stopped2 = tokio::time::timeout(T_CALL, s.stopped()).await.map(|e| enc_w(&e)).unwrap_or(vec![8]);
+            let fin2 = match tokio::time::timeout(T_CALL, s.finish()).await { Ok(Ok(())) => vec![0], Ok(Err(e)) => enc_w(&e), Err(_) => vec![8] };
+            vec![vec![1], stopped, write, fin, write2, stopped2, fin2]
         }
         // app opens a bidi stream; the raw peer resets its sending direction with `code`
         2 => {
@@ -559,7 +564,7 @@ pub fn oracle(f: u32, a: &Args, out: &Args) -> Option<(&'static str, String)> {
             let (op, code) = (a[0][0], a[0][1]);
             match op {
                 1 => {
-                    for (i, name) in [(1usize, "stopped()"), (2, "write"), (3, "finish")] {
+                    for (i, name) in [(1usize, "stopped()"), (2, "write"), (3, "finish"), (4, "a later write"), (5, "a later stopped()"), (6, "a later finish")] {
                         if out[i] != vec![1, code] {
                             return Some(("C06", format!("peer stopped the stream with {} but {} reported {:?}", code, name, out[i])));
                         }
@@ -673,6 +678,31 @@ pub fn oracle(f: u32, a: &Args, out: &Args) -> Option<(&'static str, String)> {
                     return Some(("C02", format!("request field {} is {:?}, expected {:?}", k, req.get(k), v)));
                 }
             }
+            // C12: the first frame on the response stream that is not of a reserved type must be HEADERS;
+            // DATA or SETTINGS there is H3_FRAME_UNEXPECTED, never skipped
+            {
+                let rb = a2b(&a[1]);
+                let mut r: &[u8] = &rb;
+                loop {
+                    match Frame::read(&mut r) {
+                        Ok(Some(fr)) => match fr.kind() {
+                            wtransport::proto::frame::FrameKind::Exercise(_) => continue,
+                            wtransport::proto::frame::FrameKind::Headers => break,
+                            wtransport::proto::frame::FrameKind::Data | wtransport::proto::frame::FrameKind::Settings => {
+                                if out[1].first() == Some(&0) || out[1] == vec![1] || out[1] == vec![TAG_PENDING] {
+                                    return Some(("C12", format!("the response stream started with a {:?} frame; connect() returned {:?} instead of failing with H3_FRAME_UNEXPECTED", fr.kind(), out[1])));
+                                }
+                                if out[3] != vec![1, 0x105] {
+                                    return Some(("C12", format!("the response stream started with a {:?} frame; the peer saw {:?} instead of a close with H3_FRAME_UNEXPECTED", fr.kind(), out[3])));
+                                }
+                                break;
+                            }
+                            _ => break,
+                        },
+                        _ => break,
+                    }
+                }
+            }
             // C05 / C04: bytes behind the response HEADERS belong to the established session: a close
             // capsule or a clean FIN there must be reported exactly, however the bytes were cut
             if out.len() >= 8 && out[1].first() == Some(&0) {
@@ -735,7 +765,7 @@ pub fn generate(rng: &mut Rng, thorough: bool, which: &str) -> Vec<Case> {
         "emit" => {
             // 1025 burnt streams put the session on stream 4100: its id no longer fits 4096, the
             // largest frame payload the parser accepts (the two must not be confused)
-            for burn in [0u64, 1, 16, 20, 1025] {
+            for burn in [0u64, 1, 16, 20, 64, 255, 1025] {
                 let n = rng.range(0, 40) as usize;
                 cs.push(Case::new(631, vec![vec![burn], b2a(&rng.bytes(n)), b2a(b"bidi-payload"), b2a(b"dgram-payload")], "emit"));
             }
@@ -759,7 +789,7 @@ pub fn generate(rng: &mut Rng, thorough: bool, which: &str) -> Vec<Case> {
         "wdgram" => {
             // size contract for session ids whose quarter id sits in another varint class, peer limits
             let deltas: Vec<u64> = vec![14, 15, 16, 17, 18, 20];
-            for burn in [0u64, 16, 17, 63] {
+            for burn in [0u64, 16, 17, 63, 64, 90, 255, 256] {
                 cs.push(Case::new(651, vec![vec![burn, 0, 1], deltas.clone()], "size-contract"));
             }
             for buf in [1u64, 5, 9, 10, 11, 12, 100, 1200, 65535] {
@@ -821,6 +851,11 @@ pub fn generate(rng: &mut Rng, thorough: bool, which: &str) -> Vec<Case> {
             cs.push(Case::new(661, vec![vec![0, 0], b2a(&rg), vec![0]], "response-grease-then-fin"));
             // wrong first frame, undecodable section, missing status, stream ends
             cs.push(Case::new(661, vec![vec![0, 0], b2a(&raw_frame(0, &[1, 2])), vec![2]], "data-first"));
+            for pre in [raw_frame(0, &[1, 2]), { let mut p = raw_frame(0x21, &[]); p.extend(raw_frame(0, &[])); p }, raw_frame(4, &[])] {
+                let mut b = pre.clone();
+                b.extend(response_bytes("200", &[]));
+                cs.push(Case::new(661, vec![vec![0, 0], b2a(&b), vec![2]], "data-or-settings-before-response"));
+            }
             cs.push(Case::new(661, vec![vec![0, 0], b2a(&raw_frame(4, &[])), vec![2]], "settings-first"));
             cs.push(Case::new(661, vec![vec![0, 0], b2a(&raw_frame(1, &[0, 0, 0x3f])), vec![2]], "undecodable"));
             cs.push(Case::new(661, vec![vec![0, 0], b2a(&raw_frame(1, &[0, 0, 0xd1])), vec![2]], "no-status"));
